@@ -158,7 +158,7 @@ impl Prop for C16 {
 
     fn assumptions(&self) -> Vec<String> {
         vec![
-            "every page but the last holds at least one entry; entries are pairwise distinct and never 0.0.0.0:0".into(),
+            "every page but the last holds at least one entry; no entry is 0.0.0.0:0; an address may be listed again (also as the first entry of the next page), but a page does not end on the address it was seeded with (the client takes that for no progress)".into(),
             "an empty tag list denotes no condition".into(),
         ]
     }
@@ -211,6 +211,25 @@ impl Prop for C16 {
                             .collect()
                     })
                     .collect();
+                // repeated listings: with some salts the next page begins with the address the previous page ended on, or repeats an
+                // earlier entry in its middle (a page never ENDS on the address it was seeded with: the client takes that for "no progress")
+                let mut pages: Vec<Vec<([u8; 4], u16)>> = pages;
+                if (salt >> 8) % 3 == 0 {
+                    for i in 1 .. pages.len() {
+                        if let Some(prev_last) = pages[i - 1].last().copied() {
+                            if pages[i].len() >= 2 {
+                                if (salt >> 10) % 2 == 0 {
+                                    pages[i][0] = prev_last;
+                                } else {
+                                    let mid = pages[i].len() / 2;
+                                    if mid + 1 < pages[i].len() {
+                                        pages[i][mid] = pages[i - 1][0];
+                                    }
+                                }
+                            }
+                        }
+                    }
+                }
                 Case::Paging { pages: Pages { pages }, region }
             });
         prop_oneof![3 => filters, 1 => paging].boxed()
